@@ -161,7 +161,13 @@ def check_complement(ctx, res: Result):
     if len(sel) != 1:
         raise AnalysisError(f"{f}: selection call not recognised")
     kw = {k.arg: k.value for k in sel[0].keywords}
-    res.check(norm(kw.get("size", ast.Constant(None))) == "size" and isinstance(kw.get("up_to"), ast.Constant) and kw["up_to"].value is False, "M-COMPLEMENT", f, norm(sel[0]), "selection", "the reshuffled part is not exactly the hyperedges of the requested size", loc(v.fi, sel[0]))
+    from ..kinds import strip_none as _sn
+
+    size_arg = kw.get("size")
+    size_ok = size_arg is not None and (norm(size_arg) == "size" or _sn(v.kind(size_arg)) == SIZE)
+    upto_ok = isinstance(kw.get("up_to"), ast.Constant) and kw["up_to"].value is False
+    sel_bad = (size_arg is None) or (isinstance(kw.get("up_to"), ast.Constant) and kw["up_to"].value is True) or (size_arg is not None and not size_ok and not isinstance(_sn(v.kind(size_arg)), type(_sn(v.kind(ast.Name(id="__none__", ctx=ast.Load()))))))
+    res.add("M-COMPLEMENT", f, norm(sel[0]), "selection", "ok" if size_ok and upto_ok else ("violation" if (size_arg is None or (isinstance(kw.get("up_to"), ast.Constant) and kw["up_to"].value is True) or "up_to" not in kw) else "unknown"), "" if size_ok and upto_ok else "the reshuffled part is not exactly the hyperedges of the requested size", loc(v.fi, sel[0]))
     res.check(isinstance(kw.get("keep_isolated_nodes"), ast.Constant) and kw["keep_isolated_nodes"].value is True, "M-COMPLEMENT", f, norm(sel[0]), "nodes-kept", "nodes without a hyperedge of that size are dropped from the result", loc(v.fi, sel[0]))
     readds = [n for n in walk_no_nested(v.fi.node) if isinstance(n, ast.Call) and isinstance(n.func, ast.Attribute) and n.func.attr == "add_edge"]
     if not readds:
@@ -190,6 +196,36 @@ def check_complement(ctx, res: Result):
         else:
             res.unknown("M-COMPLEMENT", f, norm(r), "negated-selection", "the condition under which hyperedges are re-added was not recognised", loc(v.fi, r))
         res.check(lp is not None and r.args and norm(r.args[0]) == norm(lp.target), "M-COMPLEMENT", f, norm(r), "same-edge", "a different hyperedge than the tested one is re-added", loc(v.fi, r))
+        # ---- paired guards: the complement is re-added under exactly the conditions under which the chain was restricted to the
+        # selection; when the re-add runs under strictly FEWER conditions there is an option combination for which the chain ran on
+        # the whole hypergraph and the other sizes are added on top of their reshuffled versions
+        from ..rules_container import _atoms, _implied_branch
+
+        def conds(node):
+            out = set()
+            nid = v.cfg_id(node)
+            for i in walk_no_nested(v.fi.node):
+                if not isinstance(i, ast.If) or (lp is not None and any(i is y for y in ast.walk(lp))):
+                    continue
+                tid = v.cfg.by_ast.get(id(i.test))
+                if tid is None or nid is None:
+                    continue
+                for atom, _pos in _atoms(i.test, True):
+                    for want in (True, False):
+                        lab = _implied_branch(i.test, atom, want)
+                        if lab and v.cfg.branch_dominated(tid, lab, nid):
+                            out.add((norm(atom), want))
+            return out
+
+        if lp is not None:
+            s_c, r_c = conds(sel[0]), conds(lp)
+            extra = s_c - r_c
+            if r_c < s_c and extra:
+                res.violation("M-COMPLEMENT", f, norm(lp.iter)[:80], "paired-guards", f"the chain is restricted to the selection only when {' and '.join(('' if w else 'not ') + '`' + a + '`' for a, w in sorted(extra))}, but the hyperedges outside the selection are re-added without that condition: for the other option combinations the whole hypergraph is reshuffled and the originals of the other sizes are added on top", loc(v.fi, lp))
+            elif r_c == s_c:
+                res.ok("M-COMPLEMENT", f, norm(lp.iter)[:80], "paired-guards", loc(v.fi, lp))
+            else:
+                res.unknown("M-COMPLEMENT", f, norm(lp.iter)[:80], "paired-guards", "restriction and re-add stand under different tests; their equivalence was not decided", loc(v.fi, lp))
 
 
 def check_directed_swap(ctx, res: Result):
@@ -207,7 +243,7 @@ def check_directed_swap(ctx, res: Result):
         res.check(len(sets) == 2 and all(c == comp for _, c in sets.values()) and len({i for i, _ in sets.values()}) == 2, "P-SWAP", f, f"{role} loop: " + ", ".join(f"{k}=[{i}][{c}]" for k, (i, c) in sets.items()), role + ":component", f"the {role} loop does not exchange nodes between the {role} sets of two different hyperedges", loc(v.fi, lp))
         picks = {}
         for n in ast.walk(lp):
-            if isinstance(n, ast.Assign) and isinstance(n.targets[0], ast.Name) and isinstance(n.value, ast.Call) and norm(n.value.func) == "random.choice" and n.value.args:
+            if isinstance(n, ast.Assign) and isinstance(n.targets[0], ast.Name) and isinstance(n.value, ast.Call) and (norm(n.value.func) == "random.choice" or (isinstance(n.value.func, ast.Name) and norm(v.resolve(n.value.func)) == "random.choice")) and n.value.args:
                 picks[n.targets[0].id] = norm(n.value.args[0])
         stores = [n for n in ast.walk(lp) if isinstance(n, ast.Assign) and isinstance(n.targets[0], ast.Subscript) and isinstance(n.targets[0].slice, ast.Call) and norm(n.targets[0].slice.func).endswith(".index")]
         res.check(len(stores) == 2, "P-SWAP", f, role + " loop stores", role + ":two-stores", "a swap step is not made of exactly two stores", loc(v.fi, lp))
